@@ -706,10 +706,12 @@ pub fn gen_cluster(r: &mut Rng, p: &Profile) -> Vec<String> {
             s.push_str("@@");
         }
         // long-domain clusters keep to few shapes so that masks (and hence fusion keys) coincide
-        let shape = if long_domains && r.chance(3, 4) { [0usize, 1, 11, 2][r.below(4)] } else { r.below(16) };
+        let shape = if long_domains && r.chance(3, 4) { [0usize, 1, 11, 2][r.below(4)] } else { r.below(17) };
         match shape {
             12 => s.push_str(&format!("/{}*{}|", tok, r.ps(&["a", "b", "x1", "ab", "a?1"]))),
             15 => s.push_str(&format!("|https://ads.net/{}/{}|", tok, r.ps(&["a", "b", "ab", "a?1"]))),
+            // a literal longer than most request URLs (same token, so it shares the bucket)
+            16 => s.push_str(&format!("/{}/{}", tok, r.ps(&["abcdefghijklmnopqrstuvwxyz0123456789abcdefghijkl", "a-very-long-path-segment-that-exceeds-any-short-url/x", "0123456789012345678901234567890123456789012345678901234567890123456789"]))),
             13 => s.push_str(&format!("|https://ads.net/{}^{}", tok, r.ps(&["", "a", "b"]))),
             14 => s.push_str(&format!("|https://*/{}/{}", tok, r.ps(&["a", "b", "c"]))),
             0 => s.push_str(&format!("/{}/{}", tok, r.ps(&["a", "b", "c", "d", "1", "2"]))),
